@@ -23,6 +23,7 @@ import (
 	"os"
 	"path"
 	"path/filepath"
+	"strconv"
 	"strings"
 	"sync"
 	"time"
@@ -241,9 +242,15 @@ func CompareVersion(v1, v2 string) int {
 		return 1
 	}
 
-	if parts1[1] < parts2[1] {
+	// the nanosecond field is not zero-padded: compare it as a number
+	ns1, err1 := strconv.ParseUint(parts1[1], 10, 64)
+	ns2, err2 := strconv.ParseUint(parts2[1], 10, 64)
+	if err1 != nil || err2 != nil {
+		return strings.Compare(parts1[1], parts2[1])
+	}
+	if ns1 < ns2 {
 		return -1
-	} else if parts1[1] > parts2[1] {
+	} else if ns1 > ns2 {
 		return 1
 	}
 
